@@ -206,6 +206,7 @@ pub fn run(prop: &str, tier: &str, seed: u64, outdir: &str) {
         "C11" => experiments::exp_c11(&mut exp),
         _ => {}
     }
+    experiments::exp_glue(&mut exp, prop);
     for (k, v) in &exp.stats {
         ctx.stats.insert(k.clone(), *v);
     }
